@@ -104,6 +104,97 @@ static std::string handle(const std::vector<std::string>& a) {
       r += " PTRSIZE-DIFFERS";
     return r;
   }
+  // JK / MK <L> <filterhex|-> <hex> : the same bytes through every input kind; prints kind=code:dump ...
+  if ((a[0] == "JK" || a[0] == "MK") && a.size() == 4) {
+    bool json = a[0] == "JK";
+    int L = std::stoi(a[1]);
+    std::string input = unhex(a[3]);
+    JsonDocument fdoc;
+    bool filtered = a[2] != "-";
+    if (filtered) {
+      std::string ftxt = unhex(a[2]);
+      deserializeJson(fdoc, ftxt.c_str(), ftxt.size(), DeserializationOption::NestingLimit(50));
+    }
+    JsonVariantConst fv = fdoc.as<JsonVariantConst>();
+    auto NL = DeserializationOption::NestingLimit((uint8_t)L);
+    auto FL = DeserializationOption::Filter(fv);
+    std::string res;
+    auto report = [&](const char* kind, DeserializationError err, JsonDocument& doc) {
+      // the result must be a well-formed value: traverse, serialize, clear and reuse it
+      std::string d1 = dump(doc.as<JsonVariantConst>());
+      std::string js; serializeJson(doc, js);
+      size_t m = measureJson(doc);
+      if (m != js.size()) d1 += "!MEASURE";
+      doc.clear();
+      doc["reuse"] = 1;
+      if (doc["reuse"].as<int>() != 1) d1 += "!REUSE";
+      res += std::string(kind) + "=" + codeName(err) + ":" + d1 + " ";
+    };
+#define RUN(kind, ...)                                                                    \
+    {                                                                                     \
+      JsonDocument doc;                                                                   \
+      doc["stale"] = "x";                                                                 \
+      DeserializationError err = json ? (filtered ? deserializeJson(doc, __VA_ARGS__, FL, NL) : deserializeJson(doc, __VA_ARGS__, NL)) \
+                                      : (filtered ? deserializeMsgPack(doc, __VA_ARGS__, FL, NL) : deserializeMsgPack(doc, __VA_ARGS__, NL)); \
+      report(kind, err, doc);                                                             \
+    }
+    size_t n = input.size();
+    // exactly sized heap blocks so that ASan sees any access outside the input
+    char* exact = new char[n ? n : 1];
+    memcpy(exact, input.data(), n);
+    RUN("ptrsize", (const char*)exact, n)
+    RUN("ucharptrsize", (const unsigned char*)exact, n)
+    RUN("string", input)
+    { std::string_view sv(exact, n); RUN("string_view", sv) }
+    { std::istringstream is(input); RUN("istream", is) }
+    { CountingReader rd(input); RUN("custom", rd); if (rd.fault) res += "custom=FAULT "; }
+    { ::String as; as.limitCapacityTo(size_t(1) << 30);
+      if (input.find('\0') == std::string::npos) { as = input.c_str(); RUN("arduinoString", as) } }
+    { struct SM : Stream { std::string s; size_t p = 0; bool ended = false, fault = false;
+        int read() override { if (ended) fault = true; if (p < s.size()) return (unsigned char)s[p++]; ended = true; return -1; }
+        size_t readBytes(char* b, size_t len) override { size_t i = 0; while (i < len && p < s.size()) b[i++] = s[p++]; return i; } } sm;
+      sm.s = input; RUN("arduinoStream", sm) }
+    { // sized flash pointer (mock: address shifted by 42)
+      const __FlashStringHelper* fp = reinterpret_cast<const __FlashStringHelper*>(convertPtrToFlash(exact));
+      RUN("flashsize", fp, n) }
+    if (json) {
+      // zero-terminated kinds see the bytes up to the first NUL; block = content + terminator exactly
+      size_t z = input.find('\0');
+      size_t len = z == std::string::npos ? n : z;
+      char* zt = new char[len + 1];
+      memcpy(zt, input.data(), len);
+      zt[len] = 0;
+      RUN("cstr", (const char*)zt)
+      RUN("mutcstr", (char*)zt)
+      { const __FlashStringHelper* fz = reinterpret_cast<const __FlashStringHelper*>(convertPtrToFlash(zt)); RUN("flash", fz) }
+      { JsonDocument holder; holder.set(std::string(zt, len)); JsonVariantConst hv = holder.as<JsonVariantConst>(); RUN("variant", hv) }
+      delete[] zt;
+    }
+    delete[] exact;
+#undef RUN
+    return res;
+  }
+  // JS / MS <hex> : successive calls on one stream; prints code@position:dump for each call, both for an
+  // std::istream (tellg) and for a counting custom reader (must agree)
+  if ((a[0] == "JS" || a[0] == "MS") && a.size() == 2) {
+    bool json = a[0] == "JS";
+    std::string input = unhex(a[1]);
+    std::string res;
+    std::istringstream is(input);
+    CountingReader rd(input);
+    for (int k = 0; k < 40; k++) {
+      JsonDocument d1, d2;
+      DeserializationError e1 = json ? deserializeJson(d1, is) : deserializeMsgPack(d1, is);
+      DeserializationError e2 = json ? deserializeJson(d2, rd) : deserializeMsgPack(d2, rd);
+      long pos1 = is.eof() ? (long)input.size() : (long)is.tellg();
+      if (is.eof()) is.clear(is.rdstate() & ~std::ios::failbit & ~std::ios::eofbit), is.seekg(0, std::ios::end);
+      res += std::string(codeName(e2)) + "@" + std::to_string(rd.pos) + ":" + dump(d2.as<JsonVariantConst>()) + " ";
+      if (e1 != e2 || dump(d1.as<JsonVariantConst>()) != dump(d2.as<JsonVariantConst>()) || pos1 != (long)rd.pos)
+        res += "ISTREAM-DIFFERS(" + std::string(codeName(e1)) + "@" + std::to_string(pos1) + ") ";
+      if (e2) break;
+    }
+    return res;
+  }
   // MR <hex> : deserializeMsgPack then serializeMsgPack and serializeJson of the result
   if (a[0] == "MR" && a.size() == 2) {
     std::string input = unhex(a[1]);
